@@ -12,6 +12,7 @@ RULE = ('truth tables: exhaustive 2^16 byte pairs for ct_eq/ct_ne and all 256 by
 ASSUMPTIONS = ["Python's ==, <, <=, >, >= on integers and bytes"]
 FLOORS = {'evaluations': 8000, 'distinct': 6000}
 THOROUGH_ROUNDS = 300   # thorough tier: generator passes with derived seeds (runner.gen_rounds)
+EXTRA_CFGS = ['f32']   # the workload is also executed by the force-32bits build of the library; results must not change (runner.standard_check)
 EXHAUSTIVE = False
 B64 = [0, 1, 2, 0x100000001, 0xfffffffeffffffff, 0x0000000100000000, 0xdeadbeefdeadbeef, (1 << 31) - 1, 1 << 31, (1 << 32) - 1, 1 << 32, (1 << 32) + 1, (1 << 63) - 1, 1 << 63, (1 << 63) + 1, (1 << 64) - 2, (1 << 64) - 1, 0x8000000080000000, 0x7fffffff7fffffff]
 
